@@ -103,6 +103,13 @@ def body_line(ctx, case):
     desc = lambda: "case=%r" % (case,)
     nums = line_numbers(ctx, line, labels, case["window"])
     lc = nums["line_conf"]
+    # asking again changes nothing: the same line object gives the same numbers the second time (and its logits are untouched)
+    stored = line.logits.copy()
+    nums_again = line_numbers(ctx, line, labels, case["window"])
+    ctx.check(np.array_equal(nums_again["line_conf"], lc) and nums_again["page_conf"] == nums["page_conf"] and np.array_equal(nums_again["letter"], nums["letter"])
+              and np.array_equal(nums_again["lp"], nums["lp"]), "confidences_change_when_asked_again",
+              lambda: "first %r / %r, second %r / %r; " % (lc, nums["page_conf"], nums_again["line_conf"], nums_again["page_conf"]) + desc())
+    ctx.check((line.logits != stored).nnz == 0, "confidence_query_alters_the_stored_logits", desc)
     ctx.check(lc.shape == (len(labels),) and np.all(np.isfinite(lc)) and np.all(lc >= 0) and np.all(lc <= 1 + 1e-9),
               "char_confidence_out_of_range", lambda: "confidences %r; " % (lc,) + desc())
     # bounds that follow from the definition "aligned label probability minus best competing probability, clipped at 0"
@@ -295,6 +302,15 @@ def body_thr(ctx, case):
     T, C, seed, scale, a, b = case
     rs = np.random.RandomState(seed)
     x = (rs.uniform(-1, 1, size=(T, C)) * scale).astype(np.float32)
+    form = seed % 4
+    if form in (1, 2):
+        # what the test is given is not always raw: log-softmax rows (form 1), or log-softmax rows of which the later frames
+        # carry a per-frame constant again (form 2); per-frame constants never change posteriors
+        x64n = x.astype(np.float64)
+        x = (x64n - np.logaddexp.reduce(x64n, axis=1)[:, None]).astype(np.float32)
+        if form == 2 and T >= 2:
+            x[1:] += rs.uniform(-3, 3, size=(T - 1, 1)).astype(np.float32)
+        ctx.event("partly_normalised_matrix" if form == 2 else "normalised_matrix")
     lo, hi = min(a, b), max(a, b)
     r_hi = bool(ctx.must("line_confident_enough_raises", line_confident_enough, x.copy(), hi))
     r_lo = bool(ctx.must("line_confident_enough_raises", line_confident_enough, x.copy(), lo))
